@@ -259,7 +259,12 @@ fn file_path(m: &Mapping, layer: &Path, f: &SFile) -> PathBuf {
     let mut name = m.name(&f.stem);
     if !f.ext.is_empty() {
         name.push(b'.');
-        name.extend_from_slice(f.ext.as_bytes());
+        if f.ext == "bogus" {
+            // the model's "unknown suffix": not UTF-8 / an ordinary word / a known suffix in the wrong case
+            name.extend_from_slice([&b"\xff\xfe"[..], &b"bogus"[..], &b"OVERRIDE"[..]][m.id % 3]);
+        } else {
+            name.extend_from_slice(f.ext.as_bytes());
+        }
     }
     let mut d = layer.join(&f.dir);
     if f.sub {
